@@ -498,7 +498,6 @@ static void print_obs_one(int f, int doit)
 static void print_files(int which)
 {
 	int f;
-	print_acct();
 	/* is the inode inline data right now (independent of observation) */
 	printf(",\"inl\":[");
 	for (f = 0; f < NF; f++) {
@@ -515,7 +514,11 @@ static void print_files(int which)
 			printf(",");
 		print_obs_one(f, which == f || (which == -1 && observe));
 	}
-	printf("]}\n");
+	printf("]");
+	/* after the observation: reading a file back through its handle flushes the handle's buffer, and flushing a block of an
+	   uninitialized extent converts it (the extent may split and need a tree block) -- that belongs to this line */
+	print_acct();
+	printf("}\n");
 	fflush(stdout);
 }
 
@@ -659,12 +662,18 @@ static void freed_check(int f, struct blist *before, struct blist *after, ext2fs
 	memcpy(ob + before->n, before->meta, before->nm * sizeof(blk64_t));
 	memcpy(oa, after->p, after->n * sizeof(blk64_t));
 	memcpy(oa + after->n, after->meta, after->nm * sizeof(blk64_t));
+	/* the bitmap is kept per cluster: a block counts as owned when a block of its cluster is (a new tree block marks its whole cluster) */
+	for (i = 0; i < nbf; i++)
+		ob[i] &= ~((blk64_t) EXT2FS_CLUSTER_MASK(fs));
+	for (i = 0; i < naf; i++)
+		oa[i] &= ~((blk64_t) EXT2FS_CLUSTER_MASK(fs));
 	qsort(ob, nbf, sizeof(blk64_t), cmp64);
 	qsort(oa, naf, sizeof(blk64_t), cmp64);
 	for (b = fs->super->s_first_data_block; b < nb; b++) {
 		int was = ext2fs_test_block_bitmap2(snap, b), is = ext2fs_test_block_bitmap2(fs->block_map, b);
-		int ownb = bsearch(&b, ob, nbf, sizeof(blk64_t), cmp64) != NULL;
-		int owna = bsearch(&b, oa, naf, sizeof(blk64_t), cmp64) != NULL;
+		blk64_t bc = b & ~((blk64_t) EXT2FS_CLUSTER_MASK(fs));
+		int ownb = bsearch(&bc, ob, nbf, sizeof(blk64_t), cmp64) != NULL;
+		int owna = bsearch(&bc, oa, naf, sizeof(blk64_t), cmp64) != NULL;
 		if (was && !is)
 			nfreed++;
 		if (ownb && !owna)
